@@ -354,7 +354,7 @@ func (e *Engine) runJob(fn *ssa.Function, cj *conformJob) (res *FnResult) {
 	run := func(discovery bool, prev *FnCtx) (fc *FnCtx, err string) {
 		fc = e.newFnCtx(fn, discovery, prev)
 		if cj != nil {
-			fc.con, fc.conformImpl = cj.iface, cj.impl
+			fc.con, fc.conformImpl, fc.conformIface = cj.iface, cj.impl, true
 			fc.prefixOverride = res.Short
 		}
 		defer func() {
@@ -1039,9 +1039,19 @@ func (e *Engine) conformJobs(want map[string]bool, all bool) (jobs []*conformJob
 				}
 			}
 			impl := e.contracts[fn.String()]
-			if impl == nil || impl.Trusted || impl.IsIface {
+			if impl != nil && (impl.Trusted || impl.IsIface) {
 				if e.inRepo(fn) {
-					uncovered = append(uncovered, shortFnName(fn)+" (implements "+k[strings.LastIndex(k, "/")+1:]+")")
+					uncovered = append(uncovered, shortFnName(fn)+" (implements "+k[strings.LastIndex(k, "/")+1:]+"; its own contract is trusted)")
+				}
+				continue
+			}
+			if impl == nil {
+				// no contract of its own: the method BODY is verified against the interface contract
+				if !e.inRepo(fn) || len(fn.Blocks) == 0 || strings.HasSuffix(fn.Pkg.Pkg.Path(), "testutils") || strings.Contains(fn.Name(), "ForTest") || strings.Contains(shortFnName(fn), "ForTest") {
+					continue
+				}
+				if len(want) == 0 {
+					jobs = append(jobs, &conformJob{iface: ic, impl: nil, fn: fn})
 				}
 				continue
 			}
